@@ -234,3 +234,12 @@ package asset
 //@ ensures[C10] "one-name-per-row" result1 == nil ==> len(result0) == sqlnrows(sqlrs(s.assetsQuery)) && (forall k :: 0 <= k && k < len(result0) ==> result0[k] == sqlcolS(sqlrs(s.assetsQuery), k, 0))
 //@ loop#0 invariant len(assets) == sqlcur(rows) && 0 <= sqlcur(rows) && sqlcur(rows) <= sqlnrows(sqlrs(s.assetsQuery)) && (forall k :: 0 <= k && k < len(assets) ==> assets[k] == sqlcolS(sqlrs(s.assetsQuery), k, 0))
 //@ loop#0 decreases sqlnrows(sqlrs(s.assetsQuery)) - sqlcur(rows)
+
+// the repository factory looks the builder up in a registry of function values: outside the subset
+//@ func NewRepository
+//@ trusted registry of repository builders (function values)
+
+// the meta request: a non-success status, a failed read or an undecodable body is an error; nothing panics whatever
+// the response looks like (C19); Sync relies on that error to fall back to the default start date (C12)
+//@ func TiingoRepository.LastDate
+//@ guarantees[C19,C12] "non-success-status-is-an-error" result1 == nil ==> res(http_Client_Do, 0, 0).StatusCode == 200
